@@ -81,6 +81,7 @@ func (w *WatcherHub) DeleteWatcher(sub chan []*proto.Event, lock bool) {
 func (w *WatcherHub) Stream(input chan []*proto.Event) {
 	for item := range input {
 		verifhook.Yield("hub.recv")
+		var slow []chan []*proto.Event
 		w.RLock()
 		for sub := range w.subs {
 			select {
@@ -89,10 +90,16 @@ func (w *WatcherHub) Stream(input chan []*proto.Event) {
 				// drop slow consumer
 				klog.InfoS("drop slow consumer", "chan", sub, "bufSize", watchBuffer)
 				w.metricCli.EmitCounter("drop.slow.watcher", 1)
-				go w.DeleteWatcher(sub, true)
+				slow = append(slow, sub)
 			}
 		}
 		w.RUnlock()
+		// close dropped consumers before the next batch is broadcast, otherwise a
+		// consumer that frees some room in the meantime receives later batches
+		// after the one it missed
+		for _, sub := range slow {
+			w.DeleteWatcher(sub, true)
+		}
 	}
 
 	w.Lock()
